@@ -31,4 +31,5 @@ class ColumnControlConstructionTokenTranslator(AbstractTranslator):
             token.in_cell.column = home
             return str(first + 1)
         else:
-            return token.in_cell.column + 1
+            # code is text, like in the other branches (an int broke the joining of argument lists: =SUM(COLUMN(),1))
+            return str(token.in_cell.column + 1)
